@@ -13,6 +13,7 @@ E-PURE (state machines of `auth.rs`), states and messages `:`-separated:
   `srvstart <state> fresh=<c|-> h=…`       → next state          (`start_challenge`)
   `cli <state> <msg> fresh=<c|-> h=…`      → next state          (`ClientAuthenticationProcess::next`)
 
+  `digest c1=<hex> c2=<hex> ch1= ch2= ref=<hex>,<hex>` → `<hex>,<hex>`   (`hash::challenge_digest` on both inputs)
   `authz adv=<pids> pid=<p> rem=<live remotable pids>` → `<0|1> adv=<pids afterwards>`   (`authorized_local_actor`)
 
 E-LTS (a real `NodeServer`, the harness is the peer):
@@ -458,6 +459,19 @@ def step (st : St) (op impl : String) : St × StepOut :=
     | some s, some m =>
       (st, { model := showClient (s.next (Hof tbl) () (freshOf ws) m), oracle := fsmOracleCli s m impl, nontrivial := true })
     | _, _ => (st, { model := "bad-op" })
+  | "digest" :: _ =>
+    -- the real `challenge_digest` against the reference SHA-256(challenge BE ‖ cookie) computed by
+    -- the harness with the sha2 crate; distinct inputs must give distinct digests (the hypothesis
+    -- `hsep` of `C17.wrong_cookie_never_authenticated`, sampled), equal inputs equal digests
+    let f := fun k => (getField ws k).getD ""
+    let same := f "c1" == f "c2" && f "ch1" == f "ch2"
+    let orc := match splitOnChar impl ',' with
+      | [d1, d2] =>
+        (if impl == f "ref" then [] else ["digest-differs-from-reference"]) ++
+        (if !same && d1 == d2 then ["digest-ignores-part-of-its-input"] else []) ++
+        (if same && d1 != d2 then ["digest-not-a-function-of-its-input"] else [])
+      | _ => ["unparsable"]
+    (st, { model := f "ref", oracle := orc, nontrivial := true })
   | "authz" :: _ =>
     let adv := ((getField ws "adv").bind natList?).getD []
     let pid := ((getField ws "pid").bind (·.toNat?)).getD 0
